@@ -193,14 +193,15 @@ pub fn c03(ctx: &mut Ctx) {
     #[cfg(feature = "full")]
     {
         let mut run = |ctx: &mut Ctx, frs: &[F], lws: &[f64], pen: [usize; 5]| {
-            let (req, out, _rows) = op_of(frs, lws, pen);
+            let (req, out, _rows, costs) = op_of(frs, lws, pen);
+            let req = format!("{}|costs|{}", req, costs);
             let desc = format!("wrap_optimal_fit({:?}, {:?}, {:?})", frs_tuple(frs), lws, pen);
             let fi: Vec<(I, I, I)> = frs.iter().map(|f| (f.0 as I, f.1 as I, f.2 as I)).collect();
             let li: Vec<I> = lws.iter().map(|x| *x as I).collect();
             let pi = [pen[0] as I, pen[1] as I, pen[2] as I, pen[3] as I, pen[4] as I];
             match out {
                 OfOut::Ok(lens) => {
-                    ctx.case(Op { req, real: format!("ok:{};shape=1;minimal=1;costeq=1;smawk=1", crate::proto::enc_nats(&lens)) }, desc.clone());
+                    ctx.case(Op { req, real: format!("ok:{};shape=1;minimal=1;costeq=1;smawk=1;costs=1", crate::proto::enc_nats(&lens)) }, desc.clone());
                     let c = arrangement_cost(&fi, &li, pi, &lens);
                     let m = min_cost(&fi, &li, pi);
                     if frs.len() <= 11 {
@@ -274,6 +275,29 @@ pub fn c03(ctx: &mut Ctx) {
             let pen = gen::penalties(&mut ctx.rng);
             ctx.count(if big { "large_integers" } else { "small_integers" });
             ctx.count(&format!("line_widths_{}", lwv.len()));
+            run(ctx, &frs, &lwv, pen);
+        }
+        // boundary of the short-last-line test `line_width < target / fraction`: the last line is one
+        // fragment of width L and the line width is L*fraction (-1, +0, +1), for every fraction up to
+        // 128 — the exact-fit construction of this comparison (an algebraically equal but
+        // differently rounded formulation differs only here)
+        for _ in 0..ctx.n(6000, 120_000) {
+            let f = 1 + ctx.rng.below(128);
+            let l = 1 + ctx.rng.below(12);
+            let t = (l * f + ctx.rng.below(3)).saturating_sub(1);
+            // either small fragments in front, or one wide fragment that forces the last one onto a
+            // line of its own (then the short-line penalty decides between two lines and one
+            // overflowing line)
+            let mut frs = if ctx.rng.chance(1, 2) {
+                c03_frags(&mut ctx.rng, false, 5)
+            } else {
+                vec![F(t.saturating_sub(ctx.rng.below(4)) as f64, 1.0, 0.0)]
+            };
+            for x in frs.iter_mut() { x.2 = 0.0; }
+            frs.push(F(l as f64, [0.0, 1.0][ctx.rng.below(2)], 0.0));
+            let lwv = if ctx.rng.chance(1, 3) { vec![(t + 3) as f64, t as f64] } else { vec![t as f64] };
+            let pen = [ctx.rng.below(30), ctx.rng.below(60), f, 1 + ctx.rng.below(40), ctx.rng.below(30)];
+            ctx.count("short_last_line_boundary");
             run(ctx, &frs, &lwv, pen);
         }
         // wrap level: every paragraph's arrangement is a minimum-cost arrangement of its fragments
@@ -559,7 +583,7 @@ pub fn c04(ctx: &mut Ctx) {
         #[cfg(feature = "full")]
         {
             let pen = if usize_valued && ctx.rng.chance(1, 2) { [ctx.rng.next() as usize, ctx.rng.next() as usize, ctx.rng.next() as usize % 8, ctx.rng.next() as usize, ctx.rng.next() as usize] } else { gen::penalties(&mut ctx.rng) };
-            let (req, out, _) = op_of(&frs, &lwv, pen);
+            let (req, out, _, costs) = op_of(&frs, &lwv, pen);
             let dd = format!("wrap_optimal_fit({:?}, {:?}, {:?})", frs_tuple(&frs), lwv, pen);
             match out {
                 OfOut::Panic => ctx.fail("returns normally (no panic)", format!("{} panicked", dd), None),
@@ -570,11 +594,11 @@ pub fn c04(ctx: &mut Ctx) {
                         ctx.count("overflow_error_on_non_usize_input");
                         ctx.oracle_ok();
                     }
-                    ctx.case(Op { req: format!("{}|shapeonly", req), real: "overflow;smawk=1".into() }, dd);
+                    ctx.case(Op { req: format!("{}|shapeonly|costs|{}", req, costs), real: "overflow;smawk=1;costs=1".into() }, dd);
                 }
                 OfOut::Ok(lens) => {
                     ctx.oracle_ok();
-                    ctx.case(Op { req: format!("{}|shapeonly", req), real: format!("ok:{};smawk=1", crate::proto::enc_nats(&lens)) }, dd);
+                    ctx.case(Op { req: format!("{}|shapeonly|costs|{}", req, costs), real: format!("ok:{};smawk=1;costs=1", crate::proto::enc_nats(&lens)) }, dd);
                 }
             }
         }
